@@ -211,6 +211,57 @@ def entry_points():
             img.validate()
         return f
 
+    def ti_legacy_path(where):
+        def f(s):
+            s = "".join(ch for ch in s if ch not in "=:\n\r%").strip().lstrip("#;[") or "x"
+            text = ("[general]\nfamily = Fedora\nversion = 20\narch = x86_64\nvariant = Server\ntimestamp = 1386857206.0\npackagedir = Packages\n")
+            if where == "checksums":
+                text += "[checksums]\n%s = sha256:%s\n" % (s, "a" * 64)
+            elif where == "images":
+                text += "[images-x86_64]\nkernel = %s\n" % s
+            else:
+                text += "[stage2]\nmainimage = %s\n" % s
+            TI.TreeInfo().loads(text)
+        return f
+
+    def di_field(field):
+        def f(s):
+            import productmd.discinfo
+            d = productmd.discinfo.DiscInfo()
+            d.timestamp, d.description, d.arch, d.disc_numbers = 1386856788.5, "Fedora 20", "x86_64", [1]
+            if field == "disc item":
+                d.disc_numbers = [1, s]
+            else:
+                setattr(d, field, s)
+            d.validate()
+        return f
+
+    def ti_variant_field(field):
+        def f(s):
+            t = TI.TreeInfo()
+            v = TI.Variant(t)
+            v.id, v.uid, v.name, v.type = "Server", "Server", "Server", "variant"
+            setattr(v, field, s)
+            if field == "id":
+                v.uid = s
+            v.validate()
+        return f
+
+    def ci_variant_field(field):
+        def f(s):
+            v = CI.Variant(forest_adapter.new_ci())
+            v.id = v.uid = "Server"
+            v.name, v.type, v.arches = "n", "variant", set(["x86_64"])
+            if field == "arch item":
+                v.arches = set(["x86_64", s])
+            elif field == "path value":
+                v.paths.os_tree["x86_64"] = s
+                v.paths.validate()
+            else:
+                setattr(v, field, s)
+            v.validate()
+        return f
+
     def rpms_add(which):
         def f(s):
             import productmd.rpms
@@ -225,6 +276,12 @@ def entry_points():
         "Image.volume_id": image_field("volume_id"), "Image.subvariant": image_field("subvariant"), "Image.path": image_field("path"),
         "Image.type": image_field("type"), "Image.arch": image_field("arch"),
         "Rpms.add(nevra)": rpms_add("nevra"), "Rpms.add(srpm_nevra)": rpms_add("srpm"),
+        "TreeInfo.loads(legacy checksums path)": ti_legacy_path("checksums"), "TreeInfo.loads(legacy images path)": ti_legacy_path("images"),
+        "TreeInfo.loads(legacy stage2 path)": ti_legacy_path("stage2"),
+        "DiscInfo.disc_numbers item": di_field("disc item"), "DiscInfo.description": di_field("description"), "DiscInfo.arch": di_field("arch"),
+        "treeinfo.Variant.id": ti_variant_field("id"), "treeinfo.Variant.name": ti_variant_field("name"), "treeinfo.Variant.type": ti_variant_field("type"),
+        "Variant.name": ci_variant_field("name"), "Variant.type": ci_variant_field("type"), "Variant.arches item": ci_variant_field("arch item"),
+        "VariantPaths value": ci_variant_field("path value"),
         "TreeInfo.loads(legacy general/version)": ti_legacy("version"),
         "TreeInfo.loads(legacy general/family)": ti_legacy("family"),
         "TreeInfo.loads(legacy general/variant)": ti_legacy("variant"),
